@@ -276,6 +276,9 @@ async function checkMain (engine, tier, seed, workers, runsOverride) {
   }
   if (newByKey.size > processed) console.log(`NOTE: ${newByKey.size - processed} further violation keys were observed and not individually replayed`)
 
+  // generator health: runs whose workload could not even be produced/loaded do not count as exploration
+  const genFail = Object.keys(notes).filter(n => n.startsWith('GEN:')).reduce((a, n) => a + notes[n], 0)
+  if (genFail * 50 > evaluations) harnessErrors.push(`${genFail} of ${evaluations} runs had an unusable generated workload (first: ${Object.keys(notes).find(n => n.startsWith('GEN:'))})`)
   const wall = Number(process.hrtime.bigint() - t0) / 1e9
   const zero = (engine.expectedProbes || []).filter(p => !stats[p])
   if (zero.length) console.log('WARNING probes at zero: ' + JSON.stringify(zero))
